@@ -627,10 +627,8 @@ theorem rinv_teardown {w : World} (i : Nat) (s : Sess) (h : RInvX s.conn w) (hu 
   rw [teardown_eq]
   have hb := rinv_tdBase i s h hu
   split
+  · exact rinv_sessDelete hb _ _
   · exact hb
-  · split
-    · exact hb
-    · exact rinv_sessDelete hb _ _
 
 theorem rinv_shutdownX {w : World} (i : Nat) (sid : String) (h0 : (w.node i).sess sid = none → RInv w)
     (hx : ∀ s, (w.node i).sess sid = some s → RInvX s.conn w ∧ Uniq w i s) : RInv (w.shutdownSession i sid) := by
